@@ -237,3 +237,14 @@ Lemma p_g_store_shape :
   g_pr_si_f_site_conds = [["phase_ptr->fraction_x == 0.0"%string]; []] /\
   g_pr_p_site_conds = [["phase_ptr->fraction_x == 0.0"%string]; []].
 Proof. repeat split; reflexivity. Qed.
+
+(* alpha(T) is refreshed exactly when the stored temperature differs from the current one, and the temperature it was
+   computed for is stored in both places where alpha is computed *)
+Lemma p_g_alpha_refresh :
+  (forall tk T, evalB (env_of [tk; T]) p_alpha_refresh_guard <-> tk <> T) /\
+  (forall tk T, evalB (env_of [tk; T]) g_alpha_refresh_guard <-> tk <> T) /\
+  map snd p_pr_tk_stores = ["TK"%string; "TK"%string] /\ map snd g_pr_tk_stores = ["TK"%string; "TK"%string].
+Proof.
+  unfold p_alpha_refresh_guard, g_alpha_refresh_guard.
+  split; [| split; [| split; reflexivity]]; intros; cbn [evalB]; ev; tauto.
+Qed.
